@@ -65,3 +65,17 @@ MUTANTS['C17'] = [
   ('completed-pop-stale-index', [(C, "                buffered_count -= len(data)\n                buckets.pop(j)\n", "                buffered_count -= len(data)\n                buckets.pop(0 if len(buckets) > 2 else j)\n")]),
   ('drop-mode-emits-expired', [(C, "                        data = bucket.data\n                        if not self.drop_incomplete:", "                        data = bucket.data\n                        if not self.drop_incomplete or len(data) > 2:")]),
 ]
+
+MUTANTS['C19'] = [
+  ('merge-alias-without-setdefault', [(D, "result.setdefault('alias', {}).update(database_dict['alias'])", "result['alias'].update(database_dict['alias'])")]),
+  ('merge-copy-method', [(D, "k1: copy.copy(v1)", "k1: v1.copy()")]),
+  ('examples-updated-in-place', [(D, "            examples[example_id] = {\n                **examples[example_id],\n                'example_id': example_id,\n                'dataset': dataset_name,\n            }", "            examples[example_id].update(example_id=example_id, dataset=dataset_name)")]),
+  ('merge-without-copy', [(D, "    result = {\n        k1: copy.copy(v1)\n        for k1, v1 in database_dicts[0].items()\n    }", "    result = dict(database_dicts[0])")]),
+  ('memo-not-used', [(D, "            return self._dataset_weak_ref_dict[name]\n", "            return self._dataset_weak_ref_dict[name + '#']\n")]),
+  ('dataset-duplicate-assert-dropped', [(D, "        assert not duplicate_keys, (\n            f'Found duplicate dataset names in databases! {duplicate_keys}'\n        )", "        pass")]),
+  ('alias-duplicate-assert-dropped', [(D, "            assert not duplicate_keys, (\n                f'Found duplicate alias names in databases! '\n                f'{duplicate_keys}'\n            )", "            pass")]),
+  ('alias-overlap-assert-dropped', [(D, "                    assert len(intersection) == 0, intersection", "                    pass")]),
+  ('reduce-without-data', [(D, "return JsonDatabase, (self._json_path,), {'_data': self._data}", "return JsonDatabase, (self._json_path,)")]),
+  ('alias-dataset-name-is-member', [(D, "                'dataset': dataset_name,\n", "                'dataset': dataset_name if dataset_name not in self.alias else self.alias[dataset_name][0],\n")]),
+  ('alias-members-sorted', [(D, "                dataset_names = self.alias[dataset_name]\n", "                dataset_names = sorted(self.alias[dataset_name])\n")]),
+]
